@@ -16,6 +16,7 @@ spec -> code (2): spec/Epytext.tla transcribes the block structurer of epytext.p
 """
 from __future__ import annotations
 
+import bisect
 import inspect
 import json
 import os
@@ -480,11 +481,20 @@ def render_batch(fmt: str, cases: Sequence[Dict[str, Any]]) -> List[Dict[str, An
                 raise MachineryError("generated docstring cannot be written as a raw triple-quoted string")
             builder.addModuleString(f'r"""\n{body}\n"""\nxc = 1\n', f"mm{c['id']}")
     builder.buildModules()
-    # messages of the build phase (class / module docstrings are parsed there), by the object they are about
+    # messages of the build phase (class / module docstrings are parsed there), attributed to the object whose source
+    # lines they point into (messages carry "<module>:<line>:")
+    starts = sorted((system.allobjects[f"m.o{c['id']}"].linenumber, f"m.o{c['id']}") for c in in_mod)
     by_obj: Dict[str, List[str]] = {}
     for (_, m) in system.log:
-        for name in re.findall(r"\bm\.o\d+\b|\bmm\d+\b", m.split(": ", 1)[0]):
-            by_obj.setdefault(name, []).append(m)
+        mm = re.match(r"^(\w+):(\d+): ", m)
+        if not mm:
+            continue
+        if mm.group(1) == "m":
+            k = bisect.bisect_right(starts, (int(mm.group(2)), "~")) - 1
+            if k >= 0:
+                by_obj.setdefault(starts[k][1], []).append(m)
+        else:
+            by_obj.setdefault(mm.group(1), []).append(m)
     res = []
     for c in cases:
         full = f"mm{c['id']}" if c["host"] == "module" else f"m.o{c['id']}"
@@ -801,8 +811,9 @@ def ep_check(args: List[Dict[str, Any]]) -> Dict[str, Any]:
             continue
         out["n"] += 1
         content = [k + 1 for k, t in enumerate(toks) if not (t["tag"] == "bullet" and t["kind"] != "f")]
-        # ---- verdict (property): no fatal error => every content-bearing token is in the tree, once, in order
-        if real["crash"] is None and not real["errs"]:
+        # ---- verdict (property): parse() returned a tree (no fatal error was raised) => every content-bearing token is
+        #      in the tree, once, in order
+        if real["tree"] is not None:
             got = [x[2] for x in real["tree"] if x[1] in ("para", "heading", "literalblock", "doctestblock", "field")]
             if got != content:
                 out["bad"].append({"invariant": "StructurerConserves", "toks": toks, "input": text, "expected": content,
@@ -907,7 +918,7 @@ def plan(ctx: Ctx) -> List[Dict[str, Any]]:
             dict(name="structure<=3", actions=3, depth=3, fields=2, kinds=rep, blocks=ALL_BLOCKS, free=False, sample=None),
             dict(name="fields", actions=2, depth=1, fields=2, kinds=ALL_KINDS, blocks=["para"], free=False, sample=None),
             dict(name="structure=4", actions=4, depth=3, fields=1, kinds=["param", "note"], blocks=ALL_BLOCKS, free=False,
-                 sample=2000),
+                 sample=1500),
         ]
     return [
         dict(name="structure<=4", actions=4, depth=3, fields=2, kinds=rep, blocks=ALL_BLOCKS, free=False, sample=None),
@@ -1124,7 +1135,7 @@ def replay(ctx: Ctx, path: str) -> int:
     if w.get("origin") == "Epytext" and w["invariant"] == "StructurerConserves":
         real = ep_real(w["input"])
         got = [x[2] for x in (real["tree"] or []) if x[1] in ("para", "heading", "literalblock", "doctestblock", "field")]
-        if real["crash"] is None and not real["errs"] and got != w["expected"]:
+        if real["tree"] is not None and got != w["expected"]:
             bad.append("StructurerConserves")
     elif w.get("origin") == "Epytext":
         res = render_batch("epytext", [{"id": 0, "host": "function", "docstring": w["input"], "attrs": []}])[0]
